@@ -42,7 +42,7 @@ Emit ==
         cells |-> cs, holes |-> SetToSeq(HoleBytes(sh)),
         listing |-> [j \in 1..Len(l) |-> [key |-> l[j].key, ty |-> l[j].ty, byval |-> l[j].byval, abs |-> l[j].abs,
                                            size |-> l[j].size, path |-> NamePath(sh, l[j].pos)]],
-        reqs |-> [r \in 1..Len(rs) |-> [by |-> rs[r].by, cont |-> rs[r].cont, names |-> rs[r].names, types |-> rs[r].types,
+        reqs |-> [r \in 1..Len(rs) |-> [by |-> rs[r].by, cont |-> rs[r].cont, names |-> rs[r].names, types |-> rs[r].types, ent |-> rs[r].ent, close |-> rs[r].close,
                                          want |-> WantJ(l, foc, rs[r], ws[r]),
                                          model |-> <<Derive(sh, u, l, rs[r], FALSE).out, Derive(sh, u, l, rs[r], TRUE).out>>,
                                          core |-> \E i \in 1..Len(core) : core[i] = r]],
